@@ -91,15 +91,13 @@ Definition chk_prom (c : prom_case) : bool :=
    reported values, observed decision: Some true = CONTINUE, Some false = STOP, None = on_trial_complete)) ;
    the priority handed to MOASHA by the harness is the first signed objective *)
 Definition moseq_case := (list bool * Q * Q * list Q * list (bool * Z * Q * list Q * option bool))%type.
-Definition first_objective (X : list Pareto.vec) : list Q := map (fun v => nth 0 v 0) X.
-Definition modec (d : option Pareto.decision) : option bool :=
-  match d with None => None | Some Pareto.CONTINUE => Some true | Some Pareto.STOP => Some false end.
+Definition first_objective (X : list (list Q)) : list Q := map (fun v => nth 0 v 0) X.
 Definition chk_moseq (c : moseq_case) : bool :=
   let '(modes, rf, max_t, ms, calls) := c in
-  let b := map (fun m => {| Pareto.milestone := m; Pareto.recorded := [] |}) ms in
+  let b := map (fun m => {| mo_milestone := m; mo_recorded := [] |}) ms in
   let evs := map (fun cl : bool * Z * Q * list Q * option bool =>
                     let '(cmpl, t, it, vals, _) := cl in if cmpl then MoComplete t it vals else MoResult t it vals) calls in
-  list_eqb (opt_eqb Bool.eqb) (map modec (snd (mo_run first_objective rf max_t (map md_of modes) b evs)))
+  list_eqb (opt_eqb Bool.eqb) (snd (mo_run first_objective rf max_t (map md_of modes) b evs))
            (map (fun cl : bool * Z * Q * list Q * option bool => snd cl) calls).
 """
 
@@ -770,7 +768,7 @@ def unit_cases2(ctx, replay):
     if terms:
         for i in ctx.coq_bad_cases("moseq", IMPORTS, PRELUDE, "chk_moseq", terms, shard=60):
             ctx.violation("correspondence", "model MOASHA shell (mo_run) differs from MOASHA", case=cases[i],
-                          failing_input=False, broken="correspondence chk_moseq (model/ModeCores.v mo_step, model/Pareto.v bracket)")
+                          failing_input=False, broken="correspondence chk_moseq (model/ModeCores.v mo_step / mo_bracket_on_result)")
     # ---- ExperimentResult.best_config ----
     import pandas as pd
     from syne_tune.experiments.experiment_result import ExperimentResult
